@@ -106,6 +106,20 @@ static void sc_future_poll() {
     }
 }
 
+// 1b. resolve vs non-blocking has_value() / operator bool / operator! of a future another thread has already resolved: whatever tells
+// the poller "resolved" must be an acquire load (ready()), never the relaxed hint pending()
+static void sc_future_has_value() {
+    for (int i = 0; i < ITER; i++) {
+        future<payload> f;
+        promise<payload> p = f.get_promise();
+        std::thread t([&] { p(payload(i)); });
+        while (f.pending()) std::this_thread::yield();
+        bool hv = (i % 3 == 0) ? static_cast<bool>(f.has_value()) : (i % 3 == 1) ? static_cast<bool>(f) : !!f;
+        if (hv) { volatile long s = f.value().sum(); (void)s; }
+        t.join();
+    }
+}
+
 static async<void> await_coro(future<payload> &f, std::atomic<int> &done) {
     try {
         payload &v = co_await f;
@@ -317,6 +331,20 @@ static void sc_scheduler_multi_start() {
     }
 }
 
+// 6c. scheduler started in a thread pool: everything the worker reads at its start (the pool pointer) is written before the hand-over
+static void sc_scheduler_pool_start() {
+    for (int i = 0; i < ITER / 20 + 1; i++) {
+        thread_pool pool(2);
+        {
+            scheduler sch(pool);
+            // give the worker time to start before this thread touches the scheduler again: a later lock/unlock of the scheduler's
+            // mutex by this thread would otherwise order everything written here before the worker's first lock
+            std::this_thread::sleep_for(std::chrono::milliseconds(2));
+            try { sch.sleep_for(std::chrono::milliseconds(1)).wait(); } catch (...) {}
+        }
+    }
+}
+
 // 8. publisher vs subscribers on other threads
 static void sc_publisher() {
     for (int i = 0; i < ITER / 10 + 1; i++) {
@@ -345,11 +373,58 @@ static void sc_publisher() {
     }
 }
 
+// 8b. the same with an item type whose destructor writes: an item that is copied while publish() trims it away shows as a race
+struct pitem {
+    long a = 0, b = 0;
+    pitem() = default;
+    pitem(long x) : a(x), b(x + 1) {}
+    pitem(const pitem &o) : a(o.a), b(o.b) {}
+    pitem &operator=(const pitem &o) { a = o.a; b = o.b; return *this; }
+    ~pitem() { a = -1; b = -1; }
+};
+static void sc_publisher_items() {
+    for (int i = 0; i < ITER / 10 + 1; i++) {
+        publisher<pitem> pub(2, 1);
+        std::atomic<bool> go{false};
+        std::thread s1([&] {
+            subscriber<pitem> sub(pub);
+            go.store(true);
+            long sum = 0;
+            while (sub.next()) { sum += sub.value().a; }
+            SINK(sum);
+        });
+        std::thread s2([&] {
+            while (!go.load()) std::this_thread::yield();
+            subscriber<pitem> sub(pub, subscribtion_type::skip_if_behind);
+            long sum = 0;
+            while (sub.next()) sum += sub.value().b;
+            SINK(sum);
+        });
+        while (!go.load()) std::this_thread::yield();
+        for (int k = 0; k < 60; k++) { pub.publish(pitem(k)); if (k % 3 == 0) std::this_thread::yield(); }
+        pub.close();
+        s1.join(); s2.join();
+    }
+}
+
 // 9. thread-safe reusable storage used alternately from two threads
 static with_allocator<reusable_storage_mtsafe, async<int>> stor_coro(reusable_storage_mtsafe &, int x) {
     int buf[8];
     for (int i = 0; i < 8; i++) buf[i] = x + i;
     co_return buf[3];
+}
+// 9b. the same with frames of different sizes: the smaller frame's trailer position lies inside the bigger frame
+static with_allocator<reusable_storage_mtsafe, async<int>> stor_coro_big(reusable_storage_mtsafe &, int x) {
+    int buf[64];
+    for (int i = 0; i < 64; i++) buf[i] = x + i;
+    co_return buf[40] + buf[3];
+}
+static void sc_storage_sizes() {
+    reusable_storage_mtsafe st;
+    { volatile int v = stor_coro_big(st, 1).join(); (void)v; }      // warm: the block fits the big frame
+    std::thread a([&] { for (int i = 0; i < ITER * 5; i++) { volatile int v = stor_coro(st, i).join(); (void)v; } });
+    std::thread b([&] { for (int i = 0; i < ITER * 5; i++) { volatile int v = stor_coro_big(st, i).join(); (void)v; } });
+    a.join(); b.join();
 }
 static void sc_storage() {
     reusable_storage_mtsafe st;
@@ -417,7 +492,8 @@ static void sc_shared() {
 
 int main(int argc, char **argv) {
     struct S { const char *name; void (*fn)(); };
-    S all[] = {{"future_poll", sc_future_poll}, {"future_await", sc_future_await}, {"future_compete", sc_future_compete},
+    S all[] = {{"future_poll", sc_future_poll}, {"future_has_value", sc_future_has_value}, {"future_await", sc_future_await}, {"future_compete", sc_future_compete},
+               {"scheduler_pool_start", sc_scheduler_pool_start}, {"storage_sizes", sc_storage_sizes}, {"publisher_items", sc_publisher_items},
                {"mutex", sc_mutex}, {"mutex_window", sc_mutex_window}, {"queue", sc_queue}, {"pool", sc_pool}, {"pool_double_stop", sc_pool_double_stop}, {"scheduler", sc_scheduler}, {"scheduler_multi_start", sc_scheduler_multi_start},
                {"publisher", sc_publisher}, {"storage", sc_storage}, {"generator", sc_generator}, {"signal", sc_signal},
                {"shared", sc_shared}};
